@@ -1,0 +1,14 @@
+//go:build verif
+
+package wallet
+
+// VerifPoint, when set by a conformance harness, is called at named points of
+// the wallet's background work (e.g. "resend.done" when a re-broadcast pass
+// has finished). It only exists in builds with the verif tag.
+var VerifPoint func(w *Wallet, name string)
+
+func verifPoint(w *Wallet, name string) {
+	if f := VerifPoint; f != nil {
+		f(w, name)
+	}
+}
